@@ -1,10 +1,10 @@
 package drivers
 
 import (
-	"encoding/asn1"
 	"crypto"
 	"crypto/x509"
 	"crypto/x509/pkix"
+	"encoding/asn1"
 	"fmt"
 	"math/big"
 	"os"
